@@ -1273,6 +1273,41 @@ func emitStruct() {
 	}
 	e.f("/-- returned expression of `AVP.wireLen` -/\ndef wireLenExpr : String := %s\n", leanStr(wl))
 
+	// multistream reads: how readHeader / readBody / conn.readMessage / ReadAtLeast use the streams
+	callsOf := func(fd *ast.FuncDecl, sel string) []string {
+		var res []string
+		if fd == nil {
+			return []string{"unrecognised"}
+		}
+		ast.Inspect(fd, func(n ast.Node) bool {
+			if c, ok := n.(*ast.CallExpr); ok {
+				if se, ok := c.Fun.(*ast.SelectorExpr); ok && se.Sel.Name == sel {
+					res = append(res, exprString(c))
+				}
+			}
+			return true
+		})
+		return res
+	}
+	strList := func(xs []string) string {
+		var q []string
+		for _, x := range xs {
+			q = append(q, leanStr(x))
+		}
+		return "[" + strings.Join(q, ", ") + "]"
+	}
+	e.f("/-- `ReadAtLeast` calls in `Message.readHeader` / `readBody`, `SetCurrentStream` calls in readHeader -/\n")
+	e.f("def sctpHeaderReads : List String := %s\n", strList(callsOf(findFunc(msg, "Message", "readHeader"), "ReadAtLeast")))
+	e.f("def sctpHeaderPins : List String := %s\n", strList(callsOf(findFunc(msg, "Message", "readHeader"), "SetCurrentStream")))
+	e.f("def sctpBodyReads : List String := %s\n", strList(callsOf(findFunc(msg, "Message", "readBody"), "ReadAtLeast")))
+	sctpf := parseFile("diam/network_sctp.go")
+	e.f("/-- stream-level reads inside `SCTPConn.ReadAtLeast` -/\ndef sctpAtLeastReads : List String := %s\n",
+		strList(append(callsOf(findFunc(sctpf, "SCTPConn", "ReadAtLeast"), "ReadAny"), callsOf(findFunc(sctpf, "SCTPConn", "ReadAtLeast"), "ReadStream")...)))
+	e.f("/-- `ResetCurrentStream` calls in `conn.readMessage` -/\ndef connResetsStream : List String := %s\n",
+		strList(callsOf(findFunc(parseFile("diam/server.go"), "conn", "readMessage"), "ResetCurrentStream")))
+	e.f("/-- `SCTPWrite` argument of `SCTPConn.WriteStream` and the stream assignment -/\ndef sctpWriteStreamCalls : List String := %s\n",
+		strList(callsOf(findFunc(sctpf, "SCTPConn", "WriteStream"), "SCTPWrite")))
+
 	// conn.serve: is the handler call a plain expression statement inside the for loop?
 	srv := parseFile("diam/server.go")
 	syncDispatch, goServe := false, 0
